@@ -38,12 +38,15 @@ class Unit:
 
 
 def unit(prop, name=None, covers=None, params=None, loops=None, level="proof", note="",
-         samples=40, timeout_ms=None, max_paths=4000):
+         samples=40, timeout_ms=None, max_paths=4000, terminates=False):
     """register a contract unit.  level: 'proof' (symbolic, all paths) or 'bounded'
-    (concrete enumeration/sampling only -- never counted as proved)."""
+    (concrete enumeration/sampling only -- never counted as proved).  terminates=True: termination
+    of the code under contract is part of the contract (a concrete run that exceeds the time limit is
+    a violation); otherwise a timeout is *undecided* (machine load), never a violation."""
 
     def deco(fn):
         u = Unit(prop, name or fn.__name__, fn, covers, params, loops, level, note, samples, timeout_ms, max_paths)
+        u.terminates = terminates
         REGISTRY.setdefault(prop, []).append(u)
         return fn
 
